@@ -78,8 +78,9 @@ func check(c Case) vk.Verdict {
 		cfg.AbsoluteTimeout = time.Hour
 	}
 	var st *vk.Storage
-	if c.Storage == "vk" {
+	if c.Storage != "memory" {
 		st = vk.NewStorage()
+		st.Retain = c.Storage == "vk-retain"
 		cfg.Storage = st
 	}
 	var script []Step
@@ -454,7 +455,7 @@ func check(c Case) vk.Verdict {
 
 func genCase(t *rapid.T) Case {
 	c := Case{API: rapid.SampledFrom([]string{"middleware", "store"}).Draw(t, "api"), Source: rapid.SampledFrom([]string{"cookie", "header", "query"}).Draw(t, "source"),
-		Storage: rapid.SampledFrom([]string{"vk", "memory"}).Draw(t, "storage"), Idle: rapid.SampledFrom([]int{2, 5, 60}).Draw(t, "idle"), Abs: rapid.IntRange(0, 3).Draw(t, "abs") == 0, Conn: rapid.IntRange(0, 2).Draw(t, "conn") == 0}
+		Storage: rapid.SampledFrom([]string{"vk", "vk-retain", "memory"}).Draw(t, "storage"), Idle: rapid.SampledFrom([]int{2, 5, 60}).Draw(t, "idle"), Abs: rapid.IntRange(0, 3).Draw(t, "abs") == 0, Conn: rapid.IntRange(0, 2).Draw(t, "conn") == 0}
 	n := rapid.IntRange(1, 25).Draw(t, "nops")
 	for i := 0; i < n; i++ {
 		switch k := rapid.IntRange(0, 11).Draw(t, "kind"); {
